@@ -45,6 +45,8 @@ MfrPermitted(cfg, name) ==
   ELSE CASE cfg.mfrMode = "none"    -> TRUE
          [] cfg.mfrMode = "exclude" -> MfrOf(name) \notin cfg.mfrs
          [] cfg.mfrMode = "include" -> cfg.mfrs = {} \/ MfrOf(name) \in cfg.mfrs
+         \* both lists at once (mfrs: excluded, mfrsIn: included): being excluded wins over being included
+         [] cfg.mfrMode = "both"    -> MfrOf(name) \notin cfg.mfrs /\ (cfg.mfrsIn = {} \/ MfrOf(name) \in cfg.mfrsIn)
 
 InitState == [ident |-> [s \in {} |-> 0], bufs |-> [s \in {} |-> None]]
 IdentOf(st, s) == IF s \in DOMAIN st.ident THEN st.ident[s] ELSE 0
